@@ -270,6 +270,8 @@ def run(ctx):
 
 def replay(ctx, rp):
     print(json.dumps(rp.get("detail"), default=str)[:3000])
+    if rp["case"].get("stream") == "import_model" and "case" in rp["case"]:
+        return common.replay_by_rerun(ctx, rp, lambda c: SI.run(c, [rp["case"]["case"]]))
     if rp["case"].get("stream") == "generated":
         (c, im, mo), = designs.run_designs(ctx, [rp["case"]["case"]])
         print(str(im.get("roundtrip"))[:1000])
